@@ -146,6 +146,19 @@ V("c08b-attenuator-mirror-without-conjugate", "C08", {"rule": "C08b", "contains"
   (FSTEPS, "    for index, basis in operator_basis(space):\n        coefficient = new_state._density_matrix[index]", "    for index, basis in operator_basis(space):\n        if index[0] < index[1]:\n            continue\n\n        coefficient = new_state._density_matrix[index]"), (FSTEPS, "            current_index = (current_ket_index, current_bra_index)\n\n            new_density_matrix[current_index] += common_term * (\n                np.tan(theta) ** (2 * k) * np.sqrt(comb(n, k) * comb(m, k))\n            )\n", "            term = common_term * (\n                np.tan(theta) ** (2 * k) * np.sqrt(comb(n, k) * comb(m, k))\n            )\n\n            new_density_matrix[current_ket_index, current_bra_index] += term\n\n            if index[0] != index[1]:\n                new_density_matrix[current_bra_index, current_ket_index] += term\n"))
 V("c08b-attenuator-mirror-with-conjugate", "C08", "silent",
   (FSTEPS, "    for index, basis in operator_basis(space):\n        coefficient = new_state._density_matrix[index]", "    for index, basis in operator_basis(space):\n        if index[0] < index[1]:\n            continue\n\n        coefficient = new_state._density_matrix[index]"), (FSTEPS, "            current_index = (current_ket_index, current_bra_index)\n\n            new_density_matrix[current_index] += common_term * (\n                np.tan(theta) ** (2 * k) * np.sqrt(comb(n, k) * comb(m, k))\n            )\n", "            term = common_term * (\n                np.tan(theta) ** (2 * k) * np.sqrt(comb(n, k) * comb(m, k))\n            )\n\n            new_density_matrix[current_ket_index, current_bra_index] += term\n\n            if index[0] != index[1]:\n                new_density_matrix[current_bra_index, current_ket_index] += np.conj(term)\n"))
+GRADS = "piquasso/_math/gradients.py"
+V("c10a-tanh-through-absolute-value", "C10", {"rule": "C10a", "contains": "create_single_mode_squeezing_gradient"},
+  (GRADS, "        tanhr = np.tanh(r)\n", "        tanhr = np.abs(np.exp(1j * phi) * np.tanh(r))\n"))
+V("c10a-phase-as-local", "C10", "silent",
+  (GRADS, "        row_sqrts = falling_index_sqrts * np.exp(1j * phi)\n        col_sqrts = falling_index_sqrts * np.exp(-1j * phi)\n",
+   "        phase = np.exp(1j * phi)\n        row_sqrts = falling_index_sqrts * phase\n        col_sqrts = falling_index_sqrts * np.conj(phase)\n"))
+GMAT = "piquasso/_math/gate_matrices.py"
+V("c10e-zeroth-power-behind-where", "C10", {"rule": "C10e", "contains": "create_single_mode_displacement_matrix"},
+  (GMAT, "    epsilon = 10e-100\n    previous_element = np.power(displacement + epsilon, cutoff_range) * denominator",
+   "    previous_element = np.where(cutoff_range == 0, 1.0, np.power(displacement, cutoff_range)) * denominator"))
+V("c10e-epsilon-named-differently", "C10", "silent",
+  (GMAT, "    epsilon = 10e-100\n    previous_element = np.power(displacement + epsilon, cutoff_range) * denominator",
+   "    tiny = 10e-100\n    shifted = displacement + tiny\n    previous_element = np.power(shifted, cutoff_range) * denominator"))
 # ------------------------------------------------------------------------------------------- C20
 V("c20-sub-add", "C20", {"rule": "C20c", "contains": "Sub"}, (EXPR, "ast.Sub: op.sub", "ast.Sub: op.add"))
 V("c20-lt-le", "C20", {"rule": "C20c", "contains": "Lt"}, (EXPR, "ast.Lt: op.lt", "ast.Lt: op.le"))
